@@ -222,7 +222,11 @@ def call_move(c, eng, old, ens_set, rng, wd, via_run_md):
     ens_num = -1 if c["ens"]["kind"] != "plus" else all_intf.index(float(c["ens"]["intf"][1]))
     all_intf = [x + sh_of(c) for x in all_intf]
     picked = {ens_num: {"ens": ens_set, "traj": old, "pn_old": old.path_number, "eng_idx": {"engine": 0}, "exe_dir": wd.exe, "rgen-eng": eng.rgen}}
-    md = {"picked": picked, "mc_moves": ["sh"] + [ens_set["mc_move"]] * len(all_intf), "interfaces": all_intf, "cap": ens_set["tis_set"].get("interface_cap"),
+    mc_moves = ["sh"] + [ens_set["mc_move"]] * len(all_intf)
+    if c.get("other_moves"):  # the other plus ensembles have moves of their own
+        mc_moves = ["sh"] + [m if k != ens_num else ens_set["mc_move"] for k, m in enumerate(c["other_moves"])] + [ens_set["mc_move"]]
+    c["_mc_moves"] = mc_moves
+    md = {"picked": picked, "mc_moves": mc_moves, "interfaces": all_intf, "cap": ens_set["tis_set"].get("interface_cap"),
           "moves": [], "trial_len": [], "trial_op": [], "generated": []}
     out = tis.run_md(md)
     status = out["status"]
@@ -307,12 +311,13 @@ def wf_cases(draw):
     mid = draw(st.sampled_from([0.0, 1.0, 2.0]))
     e = {"kind": "plus", "intf": [L0, mid, TOP], "start_cond": "L"}
     old = draw(old_path_st(e, max_interior=16))
-    cap = draw(st.sampled_from([None, None, 3.0, 3.5, 4.0]))
+    cap = draw(st.sampled_from([None, None, 3.0, 3.5, 4.0, 1.0, 1.5, 2.0, 2.5]))  # (a cap may lie below other interfaces)
     if cap is not None and cap < mid + 1.0:
         cap = None
     nj = draw(st.sampled_from([1, 2, 3, 6]))
     return {
         "ens": e, "old": old, "cap": cap, "n_jumps": nj, "move": "wf",
+        "other_moves": draw(st.one_of(st.none(), st.lists(st.sampled_from(["sh", "wf"]), min_size=4, max_size=4))),
         "maxlength": draw(st.sampled_from([8, 12, 20, 40, 80])),
         # precondition of wire fencing (staircase weights): the dynamics cannot jump over [lambda_i, cap),
         # whose width is >= 1 here, so increments are limited to +-1
@@ -376,6 +381,17 @@ def body_wf(rec, c):
                 w = new.weights
                 own = picked_traj[1]
                 rec.check(w is not None and w[own] != 0, "wf:accepted-path-weight-vector-zero-in-own-ensemble", f"{w} own column {own}")
+                # the whole weight vector of the path the move hands back (all plus ensembles are wire-fencing ones in this job):
+                # eligible frames between lambda_k and the cap, doubled when the ends are on different sides (C10's definition)
+                all_intf = [L0, 1.0, 2.0, 3.0, TOP]
+                capv = c["cap"] if c["cap"] is not None else TOP
+                if w is not None and not (capv < got[-1] <= TOP):
+                    s_side = "L" if got[0] < L0 else "R"
+                    e_side = "L" if got[-1] < L0 else "R"
+                    mvs = c.pop("_mc_moves")
+                    want = tuple(float(wfref.wf_weight(got, lam, capv) * (2 if s_side != e_side else 1)) if mvs[k + 1] == "wf" else (1.0 if lam <= max(got) else 0.0)
+                                 for k, lam in enumerate(all_intf[:-1])) + (0.0,)
+                    rec.check(tuple(float(x) for x in w) == want, "wf:weight-vector-of-the-accepted-path-differs-from-its-frames", f"got {tuple(w)} want {want} path {got} cap {c['cap']} {info}")
         else:
             after = mk.snap_path(old)
             diff = {k: (before[k], after[k]) for k in before if before[k] != after[k] and k not in ("status", "generated")}
@@ -416,7 +432,85 @@ def body_kob(rec, c):
         wd.close()
 
 
-PARTS = {"shoot": (shoot_cases, body_shoot), "wf": (wf_cases, body_wf), "kob": (kob_cases, body_kob)}
+# ------------------------------------------------- a shooting move whose old path was produced by a zero swap
+@st.composite
+def chain_cases(draw):
+    from checks import C11
+
+    c = draw(C11.swap_cases())
+    c["via_run_md"] = False
+    if draw(st.sampled_from([True, True, True, False])):
+        # trajectories that let the swap go through: the [0-] leg heads for lambda_0, nothing rests, a generous length limit
+        c["maxlength"] = draw(st.sampled_from([12, 20, 60]))
+        # (odd multiples of 1/4, so that the legs rarely rest exactly on an interface)
+        c["script"] = [{"inc": draw(st.lists(st.sampled_from([-0.75, 0.75, 1.25]), max_size=4)), "drift": draw(st.sampled_from([0.75, 1.25]))},
+                       {"inc": draw(st.lists(st.sampled_from([-0.75, 0.75, 1.25]), max_size=5)), "drift": draw(st.sampled_from([-0.75, 0.75, 1.25]))}]
+    c["labels"] = [draw(st.sampled_from(["ld", "ld", "sh", "re"])) for _ in range(2)]  # how the two swapped paths came to be
+    c["which"] = draw(st.integers(0, 1))
+    c["idx"] = draw(st.integers(0, 40))
+    c["script2"] = draw(script_st(2))
+    c["xi_mode"] = draw(st.sampled_from(["uniform", "above", "above", "at", "below", "at+1"]))
+    c["xi"] = draw(st.floats(0.001, 0.999))
+    return c
+
+
+def body_chain(rec, c):
+    """[0-]<->[0+] swap, then a shooting move from one of the two new paths: the new path is a sampled path like any other
+    (length rule n_old/n_new), whatever the origin of the paths that were swapped."""
+    from checks import C11
+    from infretis.core import tis
+
+    wd = mk.Workdir()
+    try:
+        picked, engines, (old0, f0), (old1, f1), rng, e0 = C11.setup_swap(c, wd)
+        for tr, lab in zip((old0, old1), c["labels"]):
+            tr.generated = (lab, float("nan") if lab in ("ld", "re") else 0.0, 0, 0)
+        info = f"case={c}"
+        try:
+            acc, paths, status, _ = C11.call_swap(c, picked, engines)
+        except Exception as exc:  # noqa: BLE001
+            raise Violation(f"chain:swap-raises:{type(exc).__name__}", f"{exc!r} {info}")
+        which = 0 if c["move1"] == "wf" else c["which"]
+        e = (C11.ENS_LM1 if c.get("lm1") else C11.ENS_MINUS) if which == 0 else C11.ENS_PLUS
+        left, mid, right = intf_of(e)
+        orders = [pp.order[0] for pp in paths[which].phasepoints] if acc else []
+        usable = bool(acc) and len(orders) >= 3 and all(left < x < right for x in orders[1:-1])
+        if not usable:
+            rec.case(key=c, nontrivial=False, classes=["chain", "chain:swap-" + ("accepted-but-frames-on-an-interface(skipped)" if acc else "rejected(skipped)")])
+            return
+        c2 = {"ens": e, "old": orders, "idx": c["idx"], "maxlength": c["maxlength"], "allowmaxlength": False, "loaded": False, "script": c["script2"],
+              "xi_mode": c["xi_mode"], "xi": c["xi"], "shift": 0.0}
+        n_old = len(orders) - 2
+        xi = pick_xi(c2, n_old, free_trial(c2))
+        verdict, val, s = ref_shoot(c2, xi)
+        if int(Fraction(n_old) / Fraction(xi)) != int(n_old / xi):
+            rec.case(key=c, nontrivial=False, classes=["chain", "chain:rounding-tie(skipped)"])
+            return
+        eng2 = mk.make_engine(wd, c["script2"])
+        ens_set = picked[-1 if which == 0 else 0]["ens"]
+        ens_set["rgen"] = mk.ScriptRng(integers=[c["idx"]], randoms=[xi])
+        try:
+            acc2, new, status2 = tis.shoot(ens_set, paths[which], eng2, start_cond=ens_set["start_cond"])
+        except Exception as exc:  # noqa: BLE001
+            raise Violation(f"chain:shoot-raises:{type(exc).__name__}", f"{exc!r} {info}")
+        nn = free_trial(c2)
+        limited = verdict == "REJ" and nn is not None and nn >= 1 and nn + 2 <= c["maxlength"]
+        rec.case(key=c, nontrivial=True, classes=["chain", "chain:shoot-from-new-" + ("[0-]" if which == 0 else "[0+]"), "chain:swapped-paths:" + "+".join(c["labels"]),
+                                                  "chain:" + ("ACC" if acc2 else "rej:" + str(status2))] + (["chain:rejected-by-the-length-rule-only"] if limited else []),
+                 sample={"old[0-]": c["old0"], "old[0+]": c["old1"], "labels": c["labels"], "shoot_from": orders, "xi": xi, "status": status2} if limited and len(rec.samples) < 2 else None)
+        if verdict == "ACC":
+            rec.check(bool(acc2), "chain:valid-trial-from-a-swapped-path-rejected", f"reference accepts (n_old={n_old}, xi={xi!r}), move returned {status2}; swapped path {orders} {info}")
+            if acc2:
+                got = [pp.order[0] for pp in new.phasepoints]
+                rec.check(got == val, "chain:accepted-path-differs-from-scripted-trajectories", f"got {got} want {val} {info}")
+        else:
+            rec.check(not acc2, f"chain:accepted-although-reference-rejects:{val}",
+                      f"shooting from the path a zero swap produced (labels of the swapped paths {c['labels']}): n_old={n_old}, xi={xi!r}, status {status2}; swapped path {orders} {info}")
+    finally:
+        wd.close()
+
+
+PARTS = {"shoot": (shoot_cases, body_shoot), "wf": (wf_cases, body_wf), "kob": (kob_cases, body_kob), "chain": (chain_cases, body_chain)}
 
 
 def run(ctx):
@@ -434,6 +528,7 @@ def run(ctx):
     run_property(ctx, "shoot", shoot_cases, body_shoot, ctx.pick(4000, 60000))
     run_property(ctx, "wf", wf_cases, body_wf, ctx.pick(2500, 30000))
     run_property(ctx, "kob", kob_cases, body_kob, ctx.pick(300, 3000))
+    run_property(ctx, "chain", chain_cases, body_chain, ctx.pick(1500, 20000))
     # zero-swap clauses of C09 (membership of accepted swap paths, rejected swaps change nothing): C11's swap machinery
     from checks import C11
 
